@@ -149,7 +149,7 @@ def register_verified(reg):
 
     # ---- _convert_and_check
     reg.add(Contract(
-        f"{INP}._convert_and_check", self_cls="Input", props=["C08.3"], params={"data": Pay}, result=Pay,
+        f"{INP}._convert_and_check", self_cls="Input", props=["C08.3", "C17.4", "C15.5"], params={"data": Pay}, result=Pay,
         requires=lambda ctx: Not(is_none(ctx.get(ctx.self, "_input_info"))),
         ensures=lambda ctx, r: r.e == conv_of(ctx, ctx.self, ctx.data.e), modifies=lambda ctx: [], pure=True,
         raises={"FinamDataError": lambda ctx: z3.BoolVal(True)},
@@ -204,7 +204,11 @@ def install(ex):
     def call_transform(ex, fn, args, kwargs, path, node):
         if isinstance(fn, sv.SObj) and fn.okind == "transform":
             x = ex.expect(args[0], sv.SPay, path, node)
-            return sv.SPay(TRANSF(fn.e, x.e))
+            from .base import UNITS_OF
+            r = TRANSF(fn.e, x.e)
+            # the transformation re-orders magnitudes: the unit label of the data is unaffected
+            path.assume(UNITS_OF(r) == UNITS_OF(x.e))
+            return sv.SPay(r)
         return None
 
     ex.hooks.setdefault("call_value", []).append(call_transform)
